@@ -76,7 +76,7 @@ fn settle<S: SubLike>(
             match r2 {
                 Poll::Ready(x) => {
                     if !flag.woken() {
-                        return bad("C02", format!("{who}: the poll answered Pending, a later poll answers Ready({x:?}), but the waker of the Pending poll was never woken (lost wakeup)"));
+                        return bad("C02|C04", format!("{who}: the poll answered Pending, a later poll answers Ready({x:?}), but the waker of the Pending poll was never woken (lost wakeup)"));
                     }
                     seen.push(x);
                 }
@@ -387,6 +387,8 @@ fn run_scen(sc: Scen, prefix: &[usize]) -> (SchedRun, V) {
                         let t1 = k1.tick();
                         pause("wguard:held");
                         ObservableWriteGuard::set(&mut g, 5);
+                        // a second, non-notifying access through the same guard must not undo the notification
+                        ObservableWriteGuard::update_if(&mut g, |_| false);
                         pause("wguard:after-set");
                         let t2 = k1.tick();
                         drop(g);
